@@ -491,7 +491,53 @@ fn c04_internals<E: Elem, N: ArrayLength>(cx: &mut Ctx) {
     }
 }
 
+/// nested arrays: a panic in the middle of an inner array while the outer one is being built
+fn c04_nested<E: Elem + Clone + Default, N: ArrayLength>(cx: &mut Ctx) {
+    let n = N::USIZE;
+    let total = 3 * n;
+    for k in 0..=total {
+        c04_case(cx, "clone.nested", E::NAME, n, " outer=3", k, total, |fa| {
+            let a: GA<GA<E, N>, U<3>> = GA::<GA<E, N>, U<3>>::generate(|_| mk::<E, N>());
+            if let Some(k) = fa {
+                fault::arm_clone(k);
+            }
+            let b = a.clone();
+            (a, b)
+        });
+        c04_case(cx, "default.nested", E::NAME, n, " outer=3", k, total, |fa| {
+            if let Some(k) = fa {
+                fault::arm_default(k);
+            }
+            GA::<GA<E, N>, U<3>>::default()
+        });
+        c04_case(cx, "generate.nested", E::NAME, n, " outer=3", k, total, |fa| {
+            let mut f = Fuse::new("gen", fa);
+            GA::<GA<E, N>, U<3>>::generate(|_| {
+                GA::<E, N>::generate(|_| {
+                    f.tick();
+                    E::fresh()
+                })
+            })
+        });
+        c04_case(cx, "map.nested_flatten", E::NAME, n, " outer=3", k, total, |fa| {
+            let mut f = Fuse::new("map", fa);
+            let a: GA<GA<E, N>, U<3>> = GA::<GA<E, N>, U<3>>::generate(|_| mk::<E, N>());
+            // map the inner arrays one by one (each inner map consumes its array)
+            let out: GA<GA<E, N>, U<3>> = a.map(|inner| {
+                inner.map(|x| {
+                    f.tick();
+                    x
+                })
+            });
+            out
+        });
+    }
+}
+
 fn c04_all<E: Elem + Clone + Default, N: ArrayLength>(cx: &mut Ctx) {
+    if cx.args.part_on("nested") && N::USIZE <= 4 {
+        c04_nested::<E, N>(cx);
+    }
     if cx.args.part_on("generate") {
         c04_generate::<E, N>(cx);
         c04_default::<E, N>(cx);
@@ -637,7 +683,12 @@ fn c05_case<S, R>(
     // build outside catch_unwind: nothing can fail here
     let (state, ids) = setup();
     if bomb < ids.len() {
-        fault::arm_bomb(ids[bomb]);
+        if ids[bomb] != 0 {
+            fault::arm_bomb(ids[bomb]);
+        } else {
+            // zero-sized elements have no identity: the bomb is "the bomb-th drop from now on"
+            fault::arm_zst_bomb(bomb);
+        }
     }
     let r = catch(move || {
         let out = run(state);
@@ -780,6 +831,61 @@ fn c05_ops<E: Elem, N: ArrayLength>(cx: &mut Ctx) {
             let v: Vec<E> = a.into_iter().collect();
             drop(v);
         });
+        c05_case(cx, "remove.then_drop", E::NAME, n, "", bomb, arr, |a| {
+            // only exists for n >= 1; go through the by-value iterator to stay length-generic
+            let mut it = a.into_iter();
+            let first = it.next();
+            let rest: Vec<E> = it.collect();
+            drop(first);
+            drop(rest);
+        });
+        c05_case(cx, "into_vec.drop", E::NAME, n, "", bomb, arr, |a| drop(Vec::<E>::from(a)));
+        c05_case(cx, "into_boxed_slice.drop", E::NAME, n, "", bomb, arr, |a| drop(Box::new(a).into_boxed_slice()));
+        c05_case(cx, "box_into_iter.partial_drop", E::NAME, n, "", bomb, arr, |a| {
+            let mut it = Box::new(a).into_iter();
+            let x = it.next();
+            drop(it);
+            drop(x);
+        });
+        c05_case(cx, "iter.rev_take_drop", E::NAME, n, "", bomb, arr, |a| {
+            let v: Vec<E> = a.into_iter().rev().take(n / 2 + 1).collect();
+            drop(v);
+        });
+        c05_case(cx, "iter.skip_step_drop", E::NAME, n, "", bomb, arr, |a| {
+            // skip/step_by are implemented through nth on the by-value iterator
+            let v: Vec<E> = a.into_iter().skip(1).step_by(2).collect();
+            drop(v);
+        });
+        c05_case(cx, "zip.mut_own_dropping_right", E::NAME, n, "", bomb, arr, |b| {
+            let mut a = mk::<E, N>();
+            let out: GA<u32, N> = (&mut a).zip(b, |_l, r| {
+                drop(r);
+                1u32
+            });
+            (out, a)
+        });
+        c05_case(cx, "zip.box_box_dropping_left", E::NAME, n, "", bomb, arr, |a| {
+            let b = mk::<E, N>();
+            Box::new(a).zip(Box::new(b), |l, r| {
+                drop(l);
+                r
+            })
+        });
+        c05_case(cx, "fold.box_dropping", E::NAME, n, "", bomb, arr, |a| {
+            Box::new(a).fold(0usize, |acc, x| {
+                drop(x);
+                acc + 1
+            })
+        });
+        c05_case(cx, "clone.then_drop_original", E::NAME, n, "", bomb, arr, |a| {
+            // bomb is in the original; the clone survives
+            drop(a);
+        });
+        c05_case(cx, "nested.drop", E::NAME, n, "", bomb, || {
+            let a: GA<GA<E, N>, U<2>> = GA::<GA<E, N>, U<2>>::generate(|_| mk::<E, N>());
+            let ids: Vec<u64> = a[1].iter().map(|e| e.raw()).collect();
+            (a, ids)
+        }, drop);
         // wrong-length collection: the builder tears down the items already taken
         c05_case(
             cx,
@@ -992,12 +1098,16 @@ fn main() {
             if args.flavour_on("Tok24") {
                 for_lens!(cx, [1, 2, 3, 5], N => c05_all::<Tok24, N>(&mut cx));
             }
+            if args.flavour_on("ZTok") {
+                for_lens!(cx, [1, 2, 3, 4, 6], N => c05_all::<ZTok, N>(&mut cx));
+            }
             if args.flavour_on("HeapTok") {
                 for_lens!(cx, [0, 1, 2, 3, 4], N => c05_all::<HeapTok, N>(&mut cx));
             }
             if args.thorough() {
                 let seed = args.seed;
                 if args.flavour_on("Tok") {
+                    for_lens!(cx, [7, 8], N => c05_all::<Tok, N>(&mut cx));
                     for_lens!(cx, [8, 16, 17, 33, 100], N => c05_large::<Tok, N>(&mut cx, seed));
                 }
                 if args.flavour_on("HeapTok") {
